@@ -3,7 +3,7 @@ import InfluxQL.Model.Print
 import InfluxQL.Model.Scanner
 /-
 Parser plumbing and the expression parser (parser.go): `bufScanner`, `Parser.scan`
-with bound-parameter substitution, `ScanIgnoreWhitespace`, `peekRune`,
+with bound-parameter substitution, `ScanIgnoreWhitespace`, `peekRune`, `peekComment`,
 `parseSegmentedIdents`, `ParseVarRef`, `ParseExpr`, `parseUnaryExpr`,
 `parseRegex`, `parseCall`.
 
@@ -238,6 +238,40 @@ def durErrText : DurErr → Str
   | .invalid => "invalid duration".toList
   | .overflow m u => "overflowed duration ".toList ++ intDigits m ++ u ++ ": choose a smaller duration or INF".toList
 
+/-- Do two runes open a comment (`--` or `/*`)? -/
+def opensComment (a b : Char) : Bool := (a == '-' && b == '-') || (a == '/' && b == '*')
+
+/-- The next two runes the reader would deliver (`eof` past the end). -/
+def Cursor.peek2 (r : Cursor) : Char × Char :=
+  match r.rest with
+  | x :: y :: _ => (x.1, y.1)
+  | [x] => (x.1, eofRune)
+  | [] => (eofRune, eofRune)
+
+/-- `Parser.peekComment()`: reads two runes and un-reads both (an `eof` too — unlike `peekRune`
+nothing is consumed), ignoring pushed-back tokens. -/
+def peekComment : P Bool := do
+  let s ← get
+  pure (opensComment s.r.peek2.1 s.r.peek2.2)
+
+/-- The loop `for p.peekComment() { … }` of `parseRegex`: skip comments and the whitespace token
+after each. `false`: the `/*` was not terminated; its ILLEGAL token is pushed back and `parseRegex`
+returns nil. Every iteration that continues has delivered a COMMENT token, so `n + |rest| + 1`
+iterations are never exhausted (`skipCommentsLoop_wp`). -/
+def skipCommentsLoop : Nat → P Bool
+  | 0 => throw .fuel
+  | fuel + 1 => do
+    if ← peekComment then
+      let lx ← pscan
+      if lx.tok ≠ .COMMENT then
+        unscan
+        pure false
+      else
+        let c ← peekRune
+        if isWhitespace c then consumeWhitespace
+        skipCommentsLoop fuel
+    else pure true
+
 /-- `Parser.parseRegex()`; `none` is the typed nil. -/
 def parseRegex : P (Option Expr) := do
   -- `if p.s.n > 0 { return nil, nil }`: no look-ahead in the rune reader while a token is pushed back
@@ -246,19 +280,24 @@ def parseRegex : P (Option Expr) := do
   else
     let c0 ← peekRune
     if isWhitespace c0 then consumeWhitespace
-    let c ← peekRune
-    let go : P (Option Expr) := do
-      let lx ← pscanRegex
-      if lx.tok = .BADESCAPE then failAt ("bad escape: ".toList ++ lx.lit) lx.pos
-      else if lx.tok = .BADREGEX then failAt ("bad regex: ".toList ++ lx.lit) lx.pos
-      else if lx.tok ≠ .REGEX then failFound lx ["regex"]
-      else pure (some (.regex lx.lit))
-    if c = '$' then
-      let lx ← pscan
-      unscan
-      if lx.tok ≠ .REGEX then pure none else go
-    else if c ≠ '/' then pure none
-    else go
+    -- a comment is equivalent to whitespace: skip comments and the whitespace after them
+    let s1 ← get
+    let ok ← skipCommentsLoop (s1.n + s1.r.rest.length + 1)
+    if !ok then pure none
+    else
+      let c ← peekRune
+      let go : P (Option Expr) := do
+        let lx ← pscanRegex
+        if lx.tok = .BADESCAPE then failAt ("bad escape: ".toList ++ lx.lit) lx.pos
+        else if lx.tok = .BADREGEX then failAt ("bad regex: ".toList ++ lx.lit) lx.pos
+        else if lx.tok ≠ .REGEX then failFound lx ["regex"]
+        else pure (some (.regex lx.lit))
+      if c = '$' then
+        let lx ← pscan
+        unscan
+        if lx.tok ≠ .REGEX then pure none else go
+      else if c ≠ '/' then pure none
+      else go
 
 /-
 The mutually recursive part. One fuel counter, decreasing by one at every call and every loop
